@@ -28,6 +28,7 @@ import Kopf.Lemmas.C20_InvD_d7
 import Kopf.Lemmas.C20_InvD_d8
 import Kopf.Lemmas.C20_InvD_d9
 import Kopf.Lemmas.C20_InvD_d10
+import Kopf.Lemmas.C20_InvD_d11
 namespace Kopf.C20
 
 theorem InvA.preserved {cfg : Cfg} {s s' : State} {l : Label} (hI : InvA s)
@@ -76,7 +77,7 @@ theorem InvE.reach {cfg : Cfg} {s : State} (h : Reach cfg s) : InvE cfg s :=
 
 theorem InvD.preserved_nodelay {cfg : Cfg} {s s' : State} {l : Label} (hB : InvB s) (hC : InvC s)
     (hI : InvD cfg s) (hl : ∀ n, l ≠ .delay n) (h : step cfg s l = some s') : InvD cfg s' := by
-  rcases l.grpD_cases with hg | hg | hg | hg | hg | hg | hg | hg | hg | hg
+  rcases l.grpD_cases with hg | hg | hg | hg | hg | hg | hg | hg | hg | hg | hg
   · exact InvD.pres_d1 hB hC hI hl hg h
   · exact InvD.pres_d2 hB hC hI hl hg h
   · exact InvD.pres_d3 hB hC hI hl hg h
@@ -87,6 +88,7 @@ theorem InvD.preserved_nodelay {cfg : Cfg} {s s' : State} {l : Label} (hB : InvB
   · exact InvD.pres_d8 hB hC hI hl hg h
   · exact InvD.pres_d9 hB hC hI hl hg h
   · exact InvD.pres_d10 hB hC hI hl hg h
+  · exact InvD.pres_d11 hB hC hI hl hg h
 
 theorem TS.live_of_not_ended {t : TS} (h1 : t.ended = false) (h2 : t ≠ .absent) : t.live = true := by
   cases t <;> simp_all
